@@ -14,6 +14,7 @@ import (
 	"go.miragespace.co/specter/spec/protocol"
 	"verifharness/internal/ev"
 
+	"google.golang.org/protobuf/proto"
 	"pgregory.net/rapid"
 )
 
@@ -227,7 +228,7 @@ func c15Judge(m c15Method, c c15Case, res c15Result) (sig, msg string) {
 			return "success-not-returned", fmt.Sprintf("call %d succeeded but the wrapper returned error %v", want-1, res.err)
 		}
 		if m.value != nil {
-			if w := m.value(want - 1); !reflect.DeepEqual(res.val, w) {
+			if w := m.value(want - 1); !c15Equal(res.val, w) {
 				return "wrong-success-value", fmt.Sprintf("returned %v, the successful call %d returned %v", res.val, want-1, w)
 			}
 		}
@@ -249,7 +250,7 @@ func c15Judge(m c15Method, c c15Case, res c15Result) (sig, msg string) {
 
 func TestC15(t *testing.T) {
 	rec := ev.New(t, "C15")
-	rec.Rule("rapid-generated (method of the 11 wrapped KV methods, attempts 1..5, script of attempts+1 outcomes over {success(value), retryable error, non-retryable error}); retryable errors = every registered retryable chord error and context.DeadlineExceeded, bare or wrapped per call; non-retryable = registered non-retryable chord errors, context.Canceled, arbitrary errors. Oracle: number of underlying calls = min(index of first success/non-retryable + 1, attempts), identical arguments on each re-issue, result = value of the first success or the last error (and no earlier, different error). Non-trivial: at least one re-issue is expected (first outcome retryable and attempts >= 2). Distinct = distinct (method, attempts, script).")
+	rec.Rule("rapid-generated (method of the 11 wrapped KV methods, attempts 1..5, script of attempts+1 outcomes over {success(value), retryable error, non-retryable error}); retryable errors = every registered retryable chord error and context.DeadlineExceeded, bare or wrapped per call; non-retryable = registered non-retryable chord errors, context.Canceled, arbitrary errors. Oracle: number of underlying calls = min(index of first success/non-retryable + 1, attempts), identical arguments on each re-issue, result = value of the first success or the last error (and no earlier, different error). Non-trivial: at least one re-issue is expected (first outcome retryable and attempts >= 2). Distinct = distinct (method, attempts, script). Concurrency dimension (class shared-wrapper): groups of 4..16 goroutines share ONE wrapper; after a barrier each issues 1500 (thorough 3000) calls back to back, every call with its own context (live: background / cancellable / far deadline; dead: cancelled / expired, 10-50% of the calls) and its own script (PRNG seeded from the shard seed); the same per-call oracle applies to every call whose own context is live (it must reach the node and follow its own script regardless of the contexts of the other callers); calls with a dead context are counted but not judged. Non-trivial there: the own context of the call is live.")
 	rec.Assume("retry interval 1 microsecond; the library's random jitter (<= 100 ms per retry) is irrelevant to the oracle; cases of a batch run concurrently",
 		"attempts = 0 (retry-go: retry forever) is outside the domain")
 
@@ -274,6 +275,9 @@ func TestC15(t *testing.T) {
 			t.Fatalf("harness: %v listed as retryable but ErrorIsRetryable is false", e)
 		}
 	}
+
+	// concurrency dimension: many goroutines, one wrapper, different contexts
+	c15Concurrent(t, rec, retryable, fatal, ev.Pick(4, 12), ev.Pick(1500, 3000))
 
 	batch := ev.Pick(40, 32)
 	ev.RapidCheck(t, 10, 600, func(rt *rapid.T) {
@@ -342,6 +346,25 @@ func TestC15(t *testing.T) {
 			}
 		}
 	})
+}
+
+// c15Equal compares returned values; protobuf messages carry internal state
+// that printing them initialises, so they are compared with proto.Equal.
+func c15Equal(a, b any) bool {
+	ka, ok1 := a.([]*protocol.KeyComposite)
+	kb, ok2 := b.([]*protocol.KeyComposite)
+	if ok1 || ok2 {
+		if !ok1 || !ok2 || len(ka) != len(kb) {
+			return false
+		}
+		for i := range ka {
+			if !proto.Equal(ka[i], kb[i]) {
+				return false
+			}
+		}
+		return true
+	}
+	return reflect.DeepEqual(a, b)
 }
 
 func sortErrs(es []error) {
